@@ -115,10 +115,15 @@ HPcs == {"inh", "hclosing", "sealing", "rollback"}
 
 --------------------------------------------------------------------------
 (* Observation: what the harness can see of the real system after a step. *)
-Proj(cl, rg, pcs, rqs) ==
+\* closed: Close() calls per state object; live: entry still in the registry map; inh: requests
+\* inside user code per session they bear; locked: live entries whose lock is held (not reported
+\* while a goroutine is blocked in Lock(): the hand-over is not observable step by step).
+Proj(cl, rg, pcs, rqs, lk) ==
     [closed |-> [s \in Sess |-> cl[s]],
      live   |-> [s \in Sess |-> rg[s].in],
      inh    |-> [s \in Sess |-> {t \in Thr : pcs[t] \in HPcs /\ (rqs[t].lk = s \/ rqs[t].minted = s)}]]
+    @@ (IF \E t \in Thr : pcs[t] = "lockwait" THEN <<>>
+        ELSE [locked |-> {s \in Sess : rg[s].in /\ lk[s] # 0}])
 
 Record(step, sig) ==
     /\ hist' = CASE Mode = "trace" -> hist
@@ -164,7 +169,7 @@ SigArgs(args) ==
 
 St(a, t, args, exp) ==
     Record([a |-> a, t |-> t, args |-> args,
-            exp |-> exp @@ Proj(closed', reg', pc', rq')],
+            exp |-> exp @@ Proj(closed', reg', pc', rq', lock')],
            <<a, SigArgs(args), AbsState>>)
 
 --------------------------------------------------------------------------
@@ -549,8 +554,7 @@ AtRest == ~Busy
 Quiesce ==
     /\ Budget /\ AtRest /\ Mode # "mc"
     /\ UNCHANGED <<reg, sinfo, closed, lock, pending, draining, down, now, pc, rq, op, cnt>>
-    /\ St("Quiesce", 0, [x |-> 0],
-          [locked |-> {s \in Sess : reg[s].in /\ lock[s] # 0}])
+    /\ St("Quiesce", 0, [x |-> 0], [rest |-> TRUE])
 
 --------------------------------------------------------------------------
 Init ==
